@@ -98,6 +98,13 @@ mut("C17", "device-opened-with-float-format", IO,
     "    self.stream = device_manager._pa.open(format=_STRUCT2PYAUDIO[dfmt],",
     "    self.stream = device_manager._pa.open(format=_STRUCT2PYAUDIO['f'],")
 
+mut("C17", "stop-takes-effect-only-when-paused", IO,
+    "      if self.halting or not self.go.is_set():",
+    "      if not self.go.is_set():")
+mut("C17", "close-never-stops-players", IO,
+    "          if not self.wait:\n            thread.stop()\n",
+    "          pass\n")
+
 # ---- C15
 mut("C15", "no-dedupe", CO,
     "      if k not in key_list:\n        key_list.append(k)",
